@@ -662,6 +662,10 @@ impl Engine for C15 {
                                     place = if !expect.iter().any(|(k, _)| k == &g.0) {
                                         // a probe the lexical model never executes was rendered
                                         "extra"
+                                    } else if !got.iter().any(|(k, _)| k == &e.0) {
+                                        // an expected probe is absent altogether (its condition was
+                                        // evaluated differently)
+                                        "missing"
                                     } else if place_of(&e.0) == "inside" || place_of(&g.0) == "inside" {
                                         "inside"
                                     } else {
@@ -671,7 +675,7 @@ impl Engine for C15 {
                                 }
                                 None => {
                                     what = format!("probe {} missing from output", e.0);
-                                    place = place_of(&e.0);
+                                    place = if got.iter().any(|(k, _)| k == &e.0) { place_of(&e.0) } else { "missing" };
                                     break;
                                 }
                             }
